@@ -24,14 +24,17 @@ class FakePM:
 
 
 class Log:
-    def __init__(self, sink):
-        self.sink = sink
+    def __init__(self, owner):
+        self.owner = owner
 
     def __getattr__(self, n):
         return self
 
     def __call__(self, *a):
-        self.sink.append(" ".join(str(x) for x in a))
+        msg = " ".join(str(x) for x in a)
+        m = re.search(r"collected between (\S+) and (\S+)\.", msg)
+        if m:
+            self.owner.outs.append(["logdiff", int(m.group(1)[2:]), int(m.group(2)[2:])])
 
 
 class Chan:
@@ -77,8 +80,10 @@ class Env:
                     if name == "pytest_collectreport":
                         rep = kw["report"]
                         m = re.search(r"collected between (\S+) and (\S+)\.", str(rep.longrepr))
-                        env.outs.append(["colldiff", int(m.group(1)[2:]), int(rep.nodeid[2:])])
-                        env.collect_msgs.append(str(rep.longrepr))
+                        pair = [int(m.group(1)[2:]), int(rep.nodeid[2:])]
+                        if env.outs and env.outs[-1] == ["logdiff"] + pair:
+                            env.outs.pop()
+                        env.outs.append(["colldiff"] + pair)
                 return call
         self.collect_msgs = []
         self.config = types.SimpleNamespace(
@@ -87,8 +92,8 @@ class Env:
         self.config.getvalue = lambda k: vals[k]
         self.config.getoption = lambda k, d=None: vals.get(k, d)
         self.config.notify_exception = lambda e: None
-        sess = types.SimpleNamespace(config=self.config, log=Log(self.logs))
-        self.sched = ds.DSession.pytest_xdist_make_scheduler(sess, self.config, Log(self.logs))
+        sess = types.SimpleNamespace(config=self.config, log=Log(self))
+        self.sched = ds.DSession.pytest_xdist_make_scheduler(sess, self.config, Log(self))
         self.nm = types.SimpleNamespace(specs=[None] * numnodes, testrunuid="uid")
 
     def new_node(self, n, spec):
@@ -139,11 +144,6 @@ class Env:
         except BaseException as e:  # noqa: BLE001
             name = type(e).__name__
             res = ["err", name if name in EXC_NAMES else "Exception"]
-        # late-worker collection differences are only logged
-        for msg in self.logs:
-            m = re.search(r"collected between (\S+) and (\S+)\.", msg)
-            if m and not any(msg.strip() == c.strip() for c in self.collect_msgs):
-                self.outs.append(["logdiff", int(m.group(1)[2:]), int(m.group(2)[2:])])
         return [list(self.outs), res, self.view()]
 
 
